@@ -142,10 +142,11 @@ class Builder:
                 already.update(imp[cls])
         for d in scope.get("decls", []):
             pass
-        form = ch.weighted([(3, "plain"), (3, "only"), (2, "rename"), (2, "only+rename"), (1, "twice")])
+        form = ch.weighted([(3, "plain"), (3, "only"), (2, "rename"), (2, "only+rename"), (1, "twice")] +
+                           ([(1, "only-empty")] if "use.only_empty" not in self.excl else []))
         if "use.rename_without_only" in self.excl and form == "rename":
             form = "only+rename"
-        if not names and form != "plain":
+        if not names and form not in ("plain", "only-empty"):
             form = "plain"
         nature = "non_intrinsic" if ch.bool(1, 6) else None
         self.feats.add("use:" + form + (":nature" if nature else ""))
@@ -158,6 +159,9 @@ class Builder:
 
         if form == "plain":
             scope["uses"].append({"module": mname, "only": None, "renames": [], "nature": nature})
+        elif form == "only-empty":
+            # `use m, only:` makes nothing of m accessible
+            scope["uses"].append({"module": mname, "only": [], "renames": [], "nature": nature})
         elif form == "only":
             pick = [n for n in names if ch.bool(1, 2)] or names[:1]
             scope["uses"].append({"module": mname, "only": [[n, None] for n in pick], "renames": [], "nature": nature})
